@@ -33,3 +33,16 @@ ITEMS = [('src/mbi/graphical_model.py', 'GraphicalModel.mle', MLE, MLE_SITES, 'C
 
 def hooks(sites):
     return LinHooks(real_dicts=(), vector_dicts=('potentials',), sites=sites)
+
+
+# variable_elimination_logspace (C02, the out-of-clique query path): eliminating z replaces the factors that mention z by the
+# log-sum-exp over z of their sum; the answer is the exponential of the remaining sum shifted to the requested total.
+VE_SITES = [
+    dict(container='psi', nth=1, of=1, name='ve:eliminated-variable-summed-out-of-the-sum-of-its-factors', spec='same(__arg, phi.logsumexp([z]))'),
+]
+VE = dict(params=dict(potentials='obj:list', elim='obj:list', total='real'), requires=['total > 0'], division='abort', numeric_objects=True,
+          pure={'reduce': 'obj', 'dict': 'obj:dict', 'zip': 'obj', 'range': 'obj', 'len': 'int', 'list': 'obj:list', 'np.log': 'real', '.values': 'obj:list', '.keys': 'obj:list',
+                '.pop': 'obj'},
+          local_types={'k': 'int'}, uses_locals=['psi', 'psi2', 'phi', 'tau', 'ans', 'k'], sites=VE_SITES,
+          ensures={'ve:answer-is-the-normalised-exponential-of-the-remaining-sum': 'same(result, (ans + (np.log(total) - ans.logsumexp())).exp())'})
+ITEMS.append(('src/mbi/graphical_model.py', 'variable_elimination_logspace', VE, VE_SITES, 'C02'))
